@@ -15,9 +15,15 @@ type vhLogout struct {
 	Issuer, NameID, StatusCode             string
 }
 
+// vhNonASCIIIssuer: the logout scenarios' Issuer ends in a non-ASCII character (set by the harness that wants it)
+var vhNonASCIIIssuer bool
+
 func vhLogoutRoot(tag string, sig int, p string) *vhLogout {
 	l := &vhLogout{sig: sig, kind: tag, ID: vIDString(p + ".ID"), InResponseTo: vString(p + ".InResponseTo"), Destination: vString(p + ".Destination"),
 		Version: vString(p + ".Version"), Issuer: vString(p + ".Issuer"), NameID: vString(p + ".NameID"), StatusCode: vString(p + ".StatusCode")}
+	if vhNonASCIIIssuer {
+		l.Issuer += "\u00e9"
+	}
 	r := etree.NewElement(tag)
 	r.CreateAttr("xmlns:samlp", "urn:oasis:names:tc:SAML:2.0:protocol")
 	r.CreateAttr("xmlns:saml", "urn:oasis:names:tc:SAML:2.0:assertion")
